@@ -242,6 +242,65 @@ func dictionaryProtocol(r *RunCtx) {
 	defer w.CloseAll()
 	w.PopParts = MergeParts{Postings: true}
 	w.populate(1)
+	// "exactly those terms of the field": for a built (or built and re-opened)
+	// segment the terms of a field are the ones its batch has in that field - in
+	// any occurrence of the field in a document, composite field included - and
+	// the count of a term is the number of documents that have it. This is the one
+	// clause checked against the input itself; everything else in this driver is
+	// relative to the segment's own canonical answers.
+	for _, h := range w.Segs {
+		if h.Depth != 0 || h.Spec == nil {
+			continue
+		}
+		want := map[string]map[string]map[int]bool{}
+		add := func(f *FieldSpec, d int) {
+			if !f.Opts.IsIndexed() || (f.Kind != 't' && f.Kind != 'g' && f.Kind != 'c') {
+				return
+			}
+			for _, t := range f.Toks {
+				if want[f.Name] == nil {
+					want[f.Name] = map[string]map[int]bool{}
+				}
+				if want[f.Name][t.Term] == nil {
+					want[f.Name][t.Term] = map[int]bool{}
+				}
+				want[f.Name][t.Term][d] = true
+			}
+		}
+		for d := range h.Spec.Docs {
+			doc := &h.Spec.Docs[d]
+			for j := range doc.Fields {
+				add(&doc.Fields[j], d)
+			}
+			for j := range doc.Composite {
+				add(&doc.Composite[j], d)
+			}
+		}
+		fields := map[string]bool{}
+		for f := range want {
+			fields[f] = true
+		}
+		for f := range h.Canon.Terms {
+			fields[f] = true
+		}
+		for f := range fields {
+			var wl []string
+			for t := range want[f] {
+				wl = append(wl, t)
+			}
+			sort.Strings(wl)
+			got := h.Canon.Terms[f]
+			if !eqStr(wl, termNames(got)) {
+				r.fail("C08.batch-terms", "Dictionary", "%s(%s) field %q: the dictionary holds %q, the batch has %q in that field", h.Name, h.Kind, f, termNames(got), wl)
+			}
+			for i := range got {
+				if n := len(want[f][got[i].Term]); uint64(n) != got[i].Count || n != len(got[i].Hits) {
+					r.fail("C08.batch-terms", "Dictionary", "%s(%s) field %q term %q: Count=%d, postings list of %d documents, the batch has it in %d documents", h.Name, h.Kind, f, got[i].Term, got[i].Count, len(got[i].Hits), n)
+				}
+			}
+		}
+		r.count("probe.dict.checked-against-batch")
+	}
 	// The iterations run on COLD twin instances (second Open of the file, or a
 	// rebuild of the batch): the lazily filled per-field dictionary cache of the
 	// instance the reference answers were taken from is already complete, in
